@@ -134,6 +134,13 @@ type modelResp struct {
 	KF []string `json:"kf"`
 }
 
+type lazyResp struct {
+	Lazy struct {
+		Kind string `json:"kind"`
+		Pos  *int   `json:"pos"`
+	} `json:"lazy"`
+}
+
 type caseT struct {
 	Src    string `json:"src"`
 	Stream string `json:"stream"`
@@ -162,6 +169,14 @@ var contexts = []context{
 	{"{ a ( b :", ") }"},
 	{"type A { f :", "}"},
 	{"query ( $ a : a =", ") { a }"},
+}
+
+// lexemes the lexer rejects, one or more per class of lexical error
+var badLexemes = []struct{ cls, text string }{
+	{"bad-character", "?"}, {"bad-character", "~"}, {"control-character", "\x07"}, {"unterminated-string", "\"abc"},
+	{"bad-escape", "\"a\\qb\""}, {"bad-unicode-escape", "\"\\u12G4\""}, {"bad-number", "1."}, {"bad-number", "01"},
+	{"bad-number", "1e"}, {"bad-number", "-"}, {"bad-dots", ".."}, {"unterminated-block-string", "\"\"\"abc"},
+	{"line-break-in-string", "\"a\nb\""},
 }
 
 // contexts for the full alphabet: one hole per kind of production
@@ -197,7 +212,7 @@ func main() {
 		return
 	}
 	defer drv.Close()
-	run.Res.Rule = "source texts: (a) all token sequences over the 37-symbol alphabet (14 punctuators, 18 keywords, name, int, float, string, block string) up to length 3 quick / 4 thorough, single-space separated; (b) all sequences over the 12-symbol alphabet [ ] ! { } ( ) : $ = a 1 up to length 6 / 8 inside 5 contexts (raw, variable type, argument value, field type, variable default), enumerated as the viable-prefix tree; (b') all sequences over the 37-symbol alphabet plus the strings \"on\" and \"implements\" up to length 2 / 3 inside 20 production contexts (variable type/default, argument value, selection, spread, field tail, operation head, fragment head, object head/field/argument definition, union members, enum/input/schema bodies, directive head/locations, extend, after a description); (c) gen.DocGen documents (executable and type-system, Exotic); (d) 1-3 token-level mutations (insert/delete/swap/replace) of (c). Compared: accept/reject real vs M and vs S, AST incl. every location real vs M, error offset real vs M, source body unchanged. non-trivial = the token list has >= 2 tokens before EOF and the real parser got past the first token (accepted, or error offset > start of the first token); distinct by source text"
+	run.Res.Rule = "source texts: (a) all token sequences over the 37-symbol alphabet (14 punctuators, 18 keywords, name, int, float, string, block string) up to length 3 quick / 4 thorough, single-space separated; (b) all sequences over the 12-symbol alphabet [ ] ! { } ( ) : $ = a 1 up to length 6 / 8 inside 5 contexts (raw, variable type, argument value, field type, variable default), enumerated as the viable-prefix tree; (b') all sequences over the 37-symbol alphabet plus the strings \"on\" and \"implements\" up to length 2 / 3 inside 20 production contexts (variable type/default, argument value, selection, spread, field tail, operation head, fragment head, object head/field/argument definition, union members, enum/input/schema bodies, directive head/locations, extend, after a description); (c) gen.DocGen documents (executable and type-system, Exotic); (d) 1-3 token-level mutations (insert/delete/swap/replace) of (c); (e) a malformed lexeme of each lexical error class (bad character, control character, unterminated string / block string, bad escape, bad unicode escape, bad number, `..`, line break in string) placed right after every token sequence up to length 2 / 3 over the 39-symbol alphabet and after every sequence up to length 1 / 2 inside the 20 production contexts, tokens separated by space / LF / CR / CRLF, with and without trailing tokens, and after a random cut of every mutated document: the offset parser.Parse reports (its own rejection at the current token, or the lexical error of the next lexeme) must be the one the model's lazy-lexing layer selects. Compared: accept/reject real vs M and vs S, AST incl. every location real vs M, error offset real vs M, source body unchanged. non-trivial = the token list has >= 2 tokens before EOF and the real parser got past the first token (accepted, or error offset > start of the first token); distinct by source text"
 
 	lexErrors := 0
 	staleKF := 0
@@ -215,12 +230,43 @@ func main() {
 			return
 		}
 		if !lexOK {
-			// the lexer half of C03 owns these; the only parser-level fact is that the parse cannot succeed
+			// a malformed lexeme follows the tokens that lexed: parser.Parse lexes one token ahead, so its own rejection at
+			// the current token competes with the lexical error of the next one. The model's lazy-lexing layer says which
+			// of the two is reported; the offsets must agree.
 			lexErrors++
 			run.Tag("lex-error")
-			run.Case(c.Src, false, nil)
 			if g.OK {
+				run.Case(c.Src, true, nil)
 				run.Violation("parser.Parse accepted a text on which iterating the lexer fails", map[string]interface{}{"case": c, "lexErrPos": lexErrPos}, false)
+				return
+			}
+			if toks == nil {
+				toks = []tok{}
+			}
+			var lz lazyResp
+			if err := drv.Ask(map[string]interface{}{"tokens": toks, "lazy": true}, &lz); err != nil {
+				run.CheckError(err.Error())
+				return
+			}
+			want := lexErrPos
+			switch lz.Lazy.Kind {
+			case "syntax":
+				run.Tag("lex-error:parser-rejection-wins")
+				if lz.Lazy.Pos == nil {
+					run.CheckError("driver: lazy syntax verdict without position")
+					return
+				}
+				want = *lz.Lazy.Pos
+			case "lex":
+				run.Tag("lex-error:lexical-error-wins")
+			default:
+				run.Violation("model parser ran out of fuel on a text with a malformed lexeme (model/driver fault)", map[string]interface{}{"case": c, "tokens": toks}, true)
+				return
+			}
+			run.Case(c.Src, len(raw) >= 1, nil)
+			if g.ErrPos != want {
+				run.Violation(fmt.Sprintf("error offset differs on a text with a malformed lexeme: parser.Parse reports %d (%s), the model expects %d (%s error; lexical error at %d): a parser rejection at the current token must be reported before advancing lexes the next token, and only then",
+					g.ErrPos, g.Err, want, lz.Lazy.Kind, lexErrPos), map[string]interface{}{"case": c, "tokens": toks, "real": g, "model": lz, "lexErrPos": lexErrPos}, false)
 			}
 			return
 		}
@@ -410,6 +456,68 @@ func main() {
 	run.Res.Extra["full_alphabet_in_contexts"] = map[string]interface{}{"contexts": len(fullContexts), "max_len": maxC, "complete": completeC}
 	run.Res.Exhaustive = run.Res.Exhaustive && completeC
 
+	// ---- (e) a malformed lexeme right after every token sequence: which error is reported
+	// classes of lexical errors, each in every line-terminator layout
+	maxE := run.N(2, 3)
+	layouts := []string{" ", "\n", "\r", "\r\n"}
+	tails := []string{"", "a }"}
+	nE := 0
+	emit := func(seq []string, pre, post string) {
+		for bi, b := range badLexemes {
+			for li, sep := range layouts {
+				// full product for short sequences, a rotating quarter of it for the others
+				if len(seq) > 1 && (bi+li+nE)%4 != 0 {
+					continue
+				}
+				parts := []string{}
+				if pre != "" {
+					parts = append(parts, strings.Fields(pre)...)
+				}
+				parts = append(parts, seq...)
+				parts = append(parts, b.text)
+				src := strings.Join(parts, sep)
+				tail := tails[(bi+li+nE)%2]
+				if post != "" {
+					tail = post
+				}
+				if tail != "" {
+					src += sep + strings.Join(strings.Fields(tail), sep)
+				}
+				one(caseT{Src: src, Stream: "lexafter:" + b.cls})
+			}
+		}
+		nE++
+	}
+	var recE func(seq []string, depth int)
+	recE = func(seq []string, depth int) {
+		if run.TooManyViolations() {
+			return
+		}
+		emit(seq, "", "")
+		if depth == maxE {
+			return
+		}
+		for _, s := range fullPlus {
+			recE(append(seq, s), depth+1)
+		}
+	}
+	recE(nil, 0)
+	for _, ctx := range fullContexts {
+		emit(nil, ctx.pre, ctx.post)
+		for _, s := range fullPlus {
+			if run.TooManyViolations() {
+				break
+			}
+			emit([]string{s}, ctx.pre, ctx.post)
+			if run.Thorough() {
+				for _, s2 := range fullPlus {
+					emit([]string{s, s2}, ctx.pre, ctx.post)
+				}
+			}
+		}
+	}
+	run.Res.Extra["malformed_lexeme_after"] = map[string]interface{}{"classes": len(badLexemes), "layouts": layouts, "max_len": maxE, "contexts": len(fullContexts)}
+
 	// ---- (c) generated documents, (d) token-level mutations
 	n := run.N(2500, 400000)
 	for i := 0; i < n && !run.TooManyViolations(); i++ {
@@ -429,6 +537,11 @@ func main() {
 			texts = mutate(r, texts, full)
 		}
 		one(caseT{Src: strings.Join(texts, " "), Stream: "mutation"})
+		// the document cut after a random token (or right after a token-level mutation), followed by a malformed lexeme
+		cut := r.Intn(len(texts) + 1)
+		b := badLexemes[r.Intn(len(badLexemes))]
+		sep := []string{" ", "\n", "\r", "\r\n"}[r.Intn(4)]
+		one(caseT{Src: strings.Join(append(append([]string{}, texts[:cut]...), b.text), sep) + sep + strings.Join(texts[cut:], sep), Stream: "lexafter-doc:" + b.cls})
 	}
 	run.Res.Extra["lex_errors_skipped"] = lexErrors
 	if staleKF > 0 {
